@@ -21,10 +21,94 @@ import enum
 import itertools
 import re
 
-from ..core import LEAN, REPO, Prop, Violation, import_repo, write_if_changed
+from ..core import LEAN, REPO, Prop, Violation, hexs, import_repo, unhexs, write_if_changed
 from ..extract import e1_caps
 
 NAMES = ["w", "f", "Foo", "sqrt", "tool_x", "net2"]
+# Look-alike spellings of a name.  A protocol token is `<base>` or `<base>~<variant letters>` (ASCII, no white space);
+# the real code sees `decode(token)`.  The Lean model treats tokens as opaque names, so model and code correspond as
+# long as decoding is injective on the tokens that are generated: only CANONICAL tokens (first token of each distinct
+# string, see `_universe`) are ever emitted.
+VARIANTS = "ULCSPKEDQH"
+
+
+def _variant(s, v):
+    if v == "U":
+        return s.upper()
+    if v == "L":
+        return s.lower()
+    if v == "C":
+        return s.swapcase()
+    if v == "S":
+        return s + " "                      # trailing blank
+    if v == "P":
+        return " " + s                      # leading blank
+    if v == "K":                            # NFKC-equivalent: first character in its full-width form
+        return (chr(ord(s[0]) + 0xFEE0) if s and 0x21 <= ord(s[0]) <= 0x7E else "\uff3f") + s[1:]
+    if v == "E":
+        return s + "\u00e9"                 # composed e-acute (NFC)
+    if v == "D":
+        return s + "e\u0301"                # the same letter decomposed (NFD)
+    if v == "Q":
+        return "functions." + s             # a provider that qualifies the names of the schema it was given
+    if v == "H":
+        return s.replace("_", "-") if "_" in s else s + "_"
+    return s
+
+
+def decode(tok):
+    """protocol token -> the string the real code is given"""
+    if tok.startswith("x:"):
+        try:
+            return unhexs(tok[2:])
+        except Exception:
+            return tok
+    base, _, vs = tok.partition("~")
+    for v in vs:
+        base = _variant(base, v)
+    return base
+
+
+def _universe():
+    s2t, toks = {}, {}
+    for b in NAMES + ["ghost"]:
+        s2t.setdefault(b, b)
+    for b in NAMES + ["ghost"]:
+        for v in VARIANTS:
+            t = f"{b}~{v}"
+            if s2t.setdefault(decode(t), t) == t:
+                toks.setdefault(b, []).append(t)
+    return s2t, toks
+
+
+STR2TOK, LOOKALIKES = _universe()       # string -> canonical token; base -> canonical look-alike tokens of it
+
+
+def encode(s):
+    """string -> canonical protocol token (hex form for strings outside the universe)"""
+    return STR2TOK.get(s) or "x:" + hexs(s)
+
+
+def parsed_callee(text):
+    """What PYTHON's parser makes of the callee of the expression `text` (independent of the library): the canonical
+    token of the identifier (the parser NFKC-normalises identifiers and drops blanks before the parenthesis), or
+    '!notname' / '!notcall'."""
+    import ast
+    try:
+        b = ast.parse(text, mode="eval").body
+    except Exception:
+        return "!notcall"
+    if not isinstance(b, ast.Call):
+        return "!notcall"
+    return encode(b.func.id) if isinstance(b.func, ast.Name) else "!notname"
+
+
+def callee_tokens(field):
+    """'name:<tok>' or 'name:<tok>=<parsed>' -> (tok, parsed or None)"""
+    tok, _, parsed = field[5:].partition("=")
+    return tok, (parsed or None)
+
+
 NCORE = 6
 NCAPS = 10          # 6..9: foreign tags
 STYLES = "aabbcdegffk"
@@ -87,6 +171,12 @@ def slots_in_case(lines):
                 for _, sl in calls:
                     out.update(sl)
     return sorted(out)
+
+
+def _spelled(line):
+    """for messages: the strings behind the look-alike tokens of a line"""
+    toks = sorted(set(re.findall(r"[A-Za-z_0-9]+~[A-Z]+", line)))
+    return (" (" + ", ".join(f"{t} = {decode(t)!r}" for t in toks) + ")") if toks else ""
 
 
 def _required(rec):
@@ -164,6 +254,7 @@ class _Run:
     def register(self, toks):
         """reg <name> <body> <req> <caps> <raises> [style] through the public registration API"""
         name, body, req, caps, raises = toks[1], int(toks[2]), parse_caps(toks[3]), parse_caps(toks[4]), toks[5] == "1"
+        pyname = decode(name)        # the harness keeps its records under the token, the engine gets the string
         style = toks[6] if len(toks) > 6 else "a"
         if style in "cfk" and caps is not None:
             style = "a"              # SimpleTool / register_function only have required_capabilities
@@ -173,14 +264,14 @@ class _Run:
         f = self.fn(body, raises)
         run = self
         if style in "ck":
-            tool = self.mm.SimpleTool(name=name, description="t", func=f,
+            tool = self.mm.SimpleTool(name=pyname, description="t", func=f,
                                       required_capabilities=set() if req is None else {self.tag(i) for i in req})
             if style == "k" and self.mito is None:
                 self.ctor_tools.append(tool)      # goes through the constructor's tools=
             else:
                 self.engine().engulf_tool(tool)
         elif style == "f":
-            self.engine().register_function(name, f, "t", required_capabilities=None if req is None
+            self.engine().register_function(pyname, f, "t", required_capabilities=None if req is None
                                             else {self.tag(i) for i in req})
         else:
             class T:
@@ -198,7 +289,7 @@ class _Run:
                 description = "t"
                 execute = T.execute
             t = B() if style == "b" else T()
-            t.name = name
+            t.name = pyname
             conv = {"d": list, "e": tuple, "g": frozenset}.get(style, set)
             if req is not None:
                 t.required_capabilities = conv(self.tag(i) for i in req)
@@ -209,12 +300,12 @@ class _Run:
         self.timeline.append(("reg", name, rec))
 
     def unregister(self, name):
-        self.engine().tools.pop(name, None)
+        self.engine().tools.pop(decode(name), None)
         self.regs.pop(name, None)
         self.timeline.append(("unreg", name))
 
     def redeclare(self, name, req, caps):
-        obj = self.engine().tools.get(name)
+        obj = self.engine().tools.get(decode(name))
         if obj is None or name not in self.regs:
             return
         for attr, val in (("required_capabilities", req), ("capabilities", caps)):
@@ -321,6 +412,13 @@ class C03(Prop):
             raising = {}
             armed = []
             inflight = rng.random() < 0.45
+            alike = rng.random() < 0.3          # look-alike spellings of the names in requests (and registrations)
+
+            def spell(nm, p):
+                """the name, or (in look-alike cases, with probability p) another spelling of it"""
+                if alike and rng.random() < p:
+                    return rng.choice(LOOKALIKES[nm])
+                return nm
 
             def reg_line(name):
                 nonlocal nbody
@@ -344,9 +442,9 @@ class C03(Prop):
                     lines.append(" ".join(l))
             for _ in range(rng.randint(2, 12)):
                 r = rng.random()
-                name = rng.choice(NAMES)
+                name = rng.choice(NAMES[:3] if alike else NAMES)
                 if r < 0.26:
-                    lines.append(reg_line(name))
+                    lines.append(reg_line(spell(name, 0.2)))
                 elif r < 0.34 and inflight:
                     s = rng.randint(1, 3)
                     if s not in armed:
@@ -356,14 +454,14 @@ class C03(Prop):
                         lines.append(f"body {rng.randint(1, nbody)} @{s}")
                 elif r < 0.55:
                     mode = rng.choice(["forced-oxid", "forced-oxid", "auto", "auto", "forced-other", "long", "ros", "digest"])
-                    callee = rng.choice([f"name:{name}"] * 6 + ["notname", "notcall"])
+                    callee = rng.choice([f"name:{spell(name, 0.6)}"] * 6 + ["notname", "notcall"])
                     a = rng.choice(["1"] * 7 + ["0", "0", f"n:{rng.choice(NAMES + ['ghost'])}"])
                     ss = slots()
                     lines.append(f"met {mode} {callee} {a} other" + (" @" + ",".join(map(str, ss)) if ss else ""))
                 elif r < 0.59:
                     lines.append("schemas")
                 elif r < 0.63:
-                    lines.append(f"unreg {name}")
+                    lines.append(f"unreg {spell(name, 0.2)}")
                 elif r < 0.67:
                     lines.append(f"redecl {name} {caps_str(self._rand_caps(rng))} "
                                  f"{caps_str(self._rand_caps(rng) if rng.random() < 0.3 else None)}")
@@ -371,14 +469,15 @@ class C03(Prop):
                     lines.append(f"setal {caps_str(self._rand_caps(rng))} {rng.choice(['set', 'frozenset', 'list', 'tuple'])}")
                 elif r < 0.83:
                     ss = slots()
-                    lines.append(f"call {name}" + (" @" + ",".join(map(str, ss)) if ss else ""))
+                    lines.append(f"call {spell(name, 0.6)}" + (" @" + ",".join(map(str, ss)) if ss else ""))
                 else:
                     k = rng.randint(0, 4)
                     rounds = []
                     for _ in range(rng.randint(0, 5)):
                         rd = ["^" + str(s) for s in slots()[:1]] if rng.random() < 0.4 else []
                         for _c in range(rng.randint(0, 3)):
-                            rd.append(rng.choice(NAMES + ["ghost"]) + "".join(f"@{s}" for s in (slots() if rng.random() < 0.4 else [])))
+                            rd.append(spell(rng.choice((NAMES[:3] if alike else NAMES) + ["ghost"]), 0.5)
+                                      + "".join(f"@{s}" for s in (slots() if rng.random() < 0.4 else [])))
                         rounds.append(rd)
                     rs = ";".join(",".join(r_) if r_ else "-" for r_ in rounds) or "."
                     lines.append(f"loop {k} {1 if rng.random() < 0.9 else 0} {rng.choice(['uniq', 'same', 'byname'])} {rs}")
@@ -531,6 +630,36 @@ class C03(Prop):
                     infl.append({"lines": [f"cfg {caps_str(al)}", f"reg w 1 2 none 0 {style}", f"reg sqrt 2 2 none 0 {style}",
                                            f"arm 1 reg w 3 - none 0 {style}", e, "call w"],
                                  "note": "digest_glucose (legacy wrapper, forced math pathway) with registered tool names"})
+        # look-alike spellings: the request names the tool in another case, with blanks, in a compatibility / decomposed
+        # form, qualified, with - for _ ; or the tool is registered under such a spelling and requested plainly; or
+        # both spellings are registered with different declarations
+        look = []
+
+        def entries_for(tok):
+            return [f"met forced-oxid name:{tok} 1 other", f"met auto name:{tok} 1 other", f"call {tok}",
+                    f"loop 2 1 {tok};{tok}"]
+        for al in ([], [0]):
+            ok, bad = al[:1], al[:1] + [2]
+            for base in ("w", "Foo", "tool_x"):
+                for v in LOOKALIKES[base]:
+                    for style in "af":
+                        for e in entries_for(v):
+                            look.append({"lines": [f"cfg {caps_str(al)}", f"reg {base} 1 {caps_str(bad)} none 0 {style}",
+                                                   f"reg f 2 {caps_str(ok)} none 0 {style}", e],
+                                         "note": "exhaustive look-alike spelling requested, tool outside the ceiling"})
+                    for e, e0 in zip(entries_for(base), entries_for(v)):
+                        look.append({"lines": [f"cfg {caps_str(al)}", f"reg {v} 1 {caps_str(bad)} none 0 a", e, e0],
+                                     "note": "exhaustive tool registered under a look-alike spelling, requested plainly"})
+                        look.append({"lines": [f"cfg {caps_str(al)}", f"reg {base} 1 {caps_str(bad)} none 0 a",
+                                               f"reg {v} 2 {caps_str(ok)} none 0 a", e, e0, f"unreg {v}", e0, e],
+                                     "note": "exhaustive both spellings registered, the plain one outside the ceiling"})
+                        look.append({"lines": [f"cfg {caps_str(al)}", f"reg {base} 1 {caps_str(ok)} none 0 a",
+                                               f"reg {v} 2 {caps_str(bad)} none 0 a", e, e0, f"unreg {base}", e, e0],
+                                     "note": "exhaustive both spellings registered, the look-alike outside the ceiling"})
+            for a_, b_ in (("w~E", "w~D"), ("w~D", "w~E"), ("Foo~U", "Foo~L"), ("Foo~L", "Foo~C"), ("tool_x~H", "tool_x~U")):
+                for e in entries_for(b_):
+                    look.append({"lines": [f"cfg {caps_str(al)}", f"reg {a_} 1 {caps_str(bad)} none 0 a", e],
+                                 "note": "exhaustive two look-alike spellings of each other (NFC/NFD, case/case)"})
         spaces = [{"name": "container types (set/frozenset/list/tuple) of the ceiling and of the tool's declaration x entry points",
                  "cases": cont},
                 {"name": "re-registration histories: allowed/used/re-registered outside the ceiling x entry-point pairs",
@@ -546,11 +675,14 @@ class C03(Prop):
                 {"name": "registration while a call is in flight (argument expressions, **call.arguments, provider between rounds) x follow-up entry point",
                  "cases": infl},
                 {"name": f"ceilings x declared capability sets (subsets of 3 caps, size <= {size}) x attribute style x entry point",
-                 "cases": cases}]
+                 "cases": cases},
+                {"name": "look-alike spellings of a registered name (case, blanks, full-width, NFC/NFD, qualified, -/_) in the request "
+                         "or in the registration x entry point",
+                 "cases": look}]
         if tier != "quick":
             return spaces
         # quick tier: one model-driver start costs ~2.5 s, so the spaces are run in three batches
-        groups = [[0, 1, 2, 7], [3, 4, 5], [6]]
+        groups = [[0, 1, 2, 7], [3, 4, 5], [6, 8]]
         return [{"name": " + ".join(spaces[i]["name"] for i in g), "cases": [c for i in g for c in spaces[i]["cases"]]}
                 for g in groups]
 
@@ -634,7 +766,12 @@ class C03(Prop):
                 args = "1, x=2" if a == "1" else f"{a[2:]}(4)" if a.startswith("n:") else "undefined_name_zz"
                 args = ", ".join([f"hook{s}()" for s in slots] + [args])
                 if callee.startswith("name:"):
-                    expr = f"{callee[5:]}({args})"
+                    tok, _ = callee_tokens(callee)
+                    expr = f"{decode(tok)}({args})"
+                    # environment fact for the model: what Python's parser reads as the callee of this text
+                    pc = parsed_callee(expr)
+                    t[2] = f"name:{tok}" if pc == tok else f"name:{tok}={pc}"
+                    case["lines"][li] = " ".join(t)
                 elif callee == "notname":
                     expr = f"w.x({args})"
                 else:
@@ -691,7 +828,7 @@ class C03(Prop):
                 mito = R.engine()
                 arguments = R.args_mapping("call", parse_slots(t[2])) if len(t) > 2 else {}
                 try:
-                    r = mito.execute_tool_call(pp.ToolCall(id="c1", name=t[1], arguments=arguments))
+                    r = mito.execute_tool_call(pp.ToolCall(id="c1", name=decode(t[1]), arguments=arguments))
                     res = "ok" if r.success else ("failx" if len(counter) > n0 else "fail")
                 except Exception as e:
                     res = f"raise:{type(e).__name__}"
@@ -703,7 +840,7 @@ class C03(Prop):
                 mito = R.engine()
                 k = int(t[2]) if len(t) > 2 and t[2].isdigit() else 1
                 slots = parse_slots(t[3]) if len(t) > 3 else []
-                run, nm = R, t[1]
+                run, nm = R, decode(t[1])
 
                 class XCall:
                     id = "cx"
@@ -766,7 +903,7 @@ class C03(Prop):
                     R.fire(slot)            # the provider uses the registration API before it answers
                 ident = (lambda j, nm: f"c{j}") if idmode == "uniq" else \
                     (lambda j, nm: "c") if idmode == "same" else (lambda j, nm: f"id-{nm}")
-                calls = [pp.ToolCall(id=ident(j, nm), name=nm,
+                calls = [pp.ToolCall(id=ident(j, nm), name=decode(nm),
                                      arguments=R.args_mapping((ri, j), sl) if exact else {})
                          for j, (nm, sl) in enumerate(rd)]
                 if calls:
@@ -848,7 +985,7 @@ class C03(Prop):
                     elif al is not None and not any(_required(r) <= set(al) for r in cands):
                         out.append(Violation("least_privilege",
                                              f"tool body {body} declared with {[sorted(_required(r)) for r in cands]} not executed under ceiling {al}",
-                                             f"executed during `{line}`", idx))
+                                             f"executed during `{line}`" + _spelled(line), idx))
             if o.startswith("raise:") or " raise:" in o or inf.get("raised"):
                 out.append(Violation("refusal_is_reported_not_raised", "a failure result", inf.get("raised") or o, idx))
             t = line.split()
@@ -856,7 +993,8 @@ class C03(Prop):
             if t[0] == "call":
                 target = t[1]
             elif t[0] == "met" and t[2].startswith("name:"):
-                target = t[2][5:]
+                tok, pc = callee_tokens(t[2])        # the tool an expression requests is the callee Python parses
+                target = (pc or tok) if not (pc or tok).startswith("!") else None
             if target is not None and target in inf["start_reg"] and al is not None and o != "skip":
                 need = _required(inf["start_reg"][target])
                 if not need <= set(al):
